@@ -136,7 +136,8 @@ pub fn record(w: &mut dyn std::io::Write, seed: u64, n_events: usize) {
     let eps_list: [(i64, i64); 9] = [(0, 1), (-1, 2), (1, 4), (1, 2), (1, 1), (3, 2), (5, 2), (7, 1), (100, 1)];
     for k in 0..n_events {
         crate::ctx::beat(&format!("{{\"record\": \"c09\", \"seed\": {seed}, \"event\": {k}}}"));
-        let nv = match k % 5 { 0 => rng.gen_range(7..12), 1 => rng.gen_range(12..30), 2 => rng.gen_range(30..80), 3 => rng.gen_range(0..4), _ => rng.gen_range(7..20) };
+        let nv = if k % 89 == 7 { [130usize, 300, 1100, 2100][(k / 89) % 4] }          // a few long inputs (size-gated code paths)
+                 else { match k % 5 { 0 => rng.gen_range(7..12), 1 => rng.gen_range(12..30), 2 => rng.gen_range(30..80), 3 => rng.gen_range(0..4), _ => rng.gen_range(7..20) } };
         let style = k % 4;
         let mut cs: Vec<Coord<f64>> = vec![];
         let (mut x, mut y) = (rng.gen_range(0..40i64), rng.gen_range(0..40i64));
